@@ -19,11 +19,14 @@ static void check(Rig& rig, const std::string& kase, const std::string& what, co
     for (unsigned k = 0; k < N; k++) { sumS += S[k]; absS += std::fabs(S[k]); if (S[k] < 0) neg = true; if (!std::isfinite(S[k])) fin = false; }
     for (unsigned x = 0; x < n; x++) e += (double)rho[x] * W[0][x];
     e *= 0.5 * dq * dq / s;
+    // natural magnitude of the quadratic form for this impedance and profile: rounding is relative to it, not to a (possibly vanishing) result
+    double rs = 0, zm = 0; for (unsigned x = 0; x < n; x++) rs += std::fabs(rho[x]); for (unsigned k = 0; k < N; k++) zm = std::max(zm, (double)std::abs((*rig.z)[k]));
+    const double scale = dq * dq * rs * rs * zm;
     uint64_t h = mcx::fnv(S.data(), 4 * N, mcx::fnvs(kase + what));
     R.eval(kase + " " + what, h, trivial);
     if (!fin) { R.violate(keyb + "/non-finite", kase, what); return; }
     if (passive && neg) { R.violate(keyb + "/negative-spectrum", kase, what); }
-    if (passive && (P < 0 || e < -1e-6 * (absS + 1e-30))) { R.violate(keyb + "/negative-power", kase, what + " P=" + mcx::fstr(P) + " wake-energy=" + mcx::fstr(e)); }
+    if (passive && (P < 0 || e < -4e-6 * scale)) { R.violate(keyb + "/negative-power", kase, what + " P=" + mcx::fstr(P) + " wake-energy=" + mcx::fstr(e)); }
     if (!(std::fabs(P - df * sumS) <= 2e-6 * df * absS + 1e-30)) { R.violate(keyb + "/power-is-not-integral-of-spectrum", kase, what + " P=" + mcx::fstr(P) + " df*sum=" + mcx::fstr(df * sumS)); }
     // Parseval: sum_k S_k - S_0/2 - a*S_top = wake energy, a = 1 (top bin not used by the wake), 1/2 or 0 (used; even / odd length)
     const unsigned top = N / 2;
@@ -31,7 +34,7 @@ static void check(Rig& rig, const std::string& kase, const std::string& what, co
     for (double a : {1.0, 0.5, 0.0}) best = std::min(best, std::fabs(sumS - 0.5 * S[0] - a * S[top] - e));
     const double rel = best / (absS + 1e-30);
     if (absS > 0) worst_rel = std::max(worst_rel, rel);
-    if (!(best <= 2e-5 * absS + 1e-30)) {
+    if (!(best <= 2e-5 * absS + 4e-6 * scale)) {
         char d[240]; snprintf(d, 240, "%s: sum S - S0/2 - S_top = %.9g but 0.5*dq^2*sum rho*W/s = %.9g (sum|S| = %.6g)", what.c_str(), sumS - 0.5 * S[0] - S[top], e, absS);
         R.violate(keyb + "/parseval", kase, d);
     }
